@@ -77,10 +77,11 @@ def run(scn: Dict[str, Any]) -> UdpRun:
         def make_callback(bidx):
             def on_device(dev):
                 n = len(out.callbacks) + 1
-                rec = {"n": n, "seq": sim.seq, "mono": sim.mono_us, "dev": summarize_device(dev), "bridge": bidx,
+                summary = summarize_device(dev)
+                sim.rec("callback", n, summary.get("device_id"), bidx)      # (stamps a fresh sequence number)
+                rec = {"n": n, "seq": sim.seq, "mono": sim.mono_us, "dev": summary, "bridge": bidx,
                        "taken": len(sim.net.taken), "arrived": sim.net_arrival_count(), "running": None}
                 out.callbacks.append(rec)
-                sim.rec("callback", n, rec["dev"].get("device_id"), bidx)
                 sim.mark("cb", rec["dev"].get("cls", "?"))
                 if n in raise_on:
                     sim.fire("cb_raise")
@@ -228,6 +229,7 @@ def run(scn: Dict[str, Any]) -> UdpRun:
             finally:
                 sim.current_owner = None
                 in_stop[0] = False
+            sim.rec("action", kind, bidx, "returned")
             act["seq1"] = sim.seq
             act["mono1"] = sim.mono_us
             act["callbacks_at_return"] = len(out.callbacks)
